@@ -11,7 +11,7 @@ FINISH = dict(level="model_checking",
                    "hashing with the own candidate must fail); V: the ENABLE_THREADING build under 2..16 threads x up to "
                    "10^6 get/put, repeated process starts racing on the first hash, disjoint trees per thread, and a "
                    "ThreadSanitizer twin of the counter run; each run validated by TLC against the atomic outcome")
-ASF = ["nonatomic", "plain_store", "hash_own_candidate", "put_check_then_act"]
+ASF = ["nonatomic", "plain_store", "hash_own_candidate", "put_check_then_act", "publish_sentinel"]
 SEEDDEF = "-DOVERRIDE_GET_RANDOM_SEED='return vh_seed_candidate()'"
 
 
@@ -38,6 +38,9 @@ def run(ck):
             jobs.append((exe, ["counter", t, m, k], {}))
     for i in range(600 if thorough else 60):
         jobs.append((exe, ["seed", 2 + (i % 4) * 4 if i % 4 else 8], {}))
+    # the entropy source answers with json-c's "not chosen yet" value at first: 1 thread (deterministic) and several
+    for t, s in ((1, 1), (1, 3), (2, 1), (4, 2), (8, 5), (8, 1)):
+        jobs.append((exe, ["seed", t, s], {}))
     for t in (4, 16):
         jobs.append((exe, ["disjoint", t, 40000 if thorough else 10000], {}))
     for t in (2, 2, 3, 4, 8):
